@@ -316,6 +316,8 @@ def run(ctx):
             k = rng.choice([0.01, 0.03, 1.0, 1 / 3])
             cspec = {"ann": {a: [[off + u[0] * k, off + u[0] * k + max(2e-4, (u[1] - u[0]) * k * rng.uniform(0.5, 1.5)), u[2]]
                                  for u in us] for a, us in cspec["ann"].items()}, "family": "arbitrary-doubles"}
+            # (two units of one annotator may have become the same unit - same start, both durations clamped: a spec lists each unit once)
+            cspec["ann"] = {a: [list(t) for t in sorted({tuple(u) for u in us}, key=cases.unit_key)] for a, us in cspec["ann"].items()}
         if i % 3 == 0:
             mode = rng.choice(["best", "soft", "fast"])
             case = {"type": "returned", "continuum": cspec, "dissim": dspec, "mode": mode, "arbitrary_doubles": arbitrary,
